@@ -192,6 +192,9 @@ def handle : List String → Option String
   | ["legalholdof", v] => do pure (showChk toString (legalHoldOf (← Bytes.ofHex v)))
   | ["chunksize", line] => do
     pure (match extractChunkSize (← Bytes.ofHex line) with | none => "malformed" | some n => toString n)
+  | ["chunksizeof", stream] => do
+    let st ← Bytes.ofHex stream
+    pure (match extractChunkSizeOf st with | none => "malformed" | some (n, r) => s!"{n} {st.length - r.length}")
   | ["chunkalloc", fixed, n, arrived] => do
     pure (showChk toString (chunkAlloc (← parseBool fixed) (← n.toInt?) (← arrived.toNat?)))
   | ["policyfirst", b] => do pure (showChk toString (policyFirstCharBad (← Bytes.ofHex b)))
